@@ -235,7 +235,7 @@ def _optimize_core(Q, i, y_trn, Yl, Yr, lamb, w, update_sol=None):
 
     for k in range(Q.shape[1]):
         idx = np.where(i == k)[0]
-        if not idx.any():
+        if not idx.size:
             continue
 
         lhs = Yr[:, idx].T[:, np.newaxis, :]
